@@ -382,7 +382,7 @@ def run(ctx):
                         # structural field: value must be the visited version of the same field
                         taint, flows = X.attr_flows(mem.node, 'o')
                         src = flows(k.value)
-                        if k.arg not in src and '*' not in src:
+                        if k.arg not in src and not X.has(src, '*'):
                             ctx.violation('R3', f'DataflowAnalysisAttacher.{mem.name}:{k.arg}', f'{Acls.module.relpath}:{n.lineno}',
                                           f'attacher writes field {k.arg} from {sorted(src)} (must derive from the re-visited {k.arg})')
                         else:
